@@ -27,7 +27,7 @@ ASSUMPTIONS = [
     "'properly overlap' = open-interval intersection as in Plane.find's own filter",
     "adding an object that is already present is a no-op; a re-inserted object may iterate at its first or its latest insertion position",
 ]
-PROBES = ["object outside bounds", "object across bounds", "negative coordinates", "zero-area box", "re-add after remove", "double add", "object spans >1 cell", "query on grid line"]
+PROBES = ["churn of 20-70 short-lived objects", "object outside bounds", "object across bounds", "negative coordinates", "zero-area box", "re-add after remove", "double add", "object spans >1 cell", "query on grid line"]
 TIERS = {
     "quick": {"batches": 16, "runs": 2500, "budget_s": 40},
     "thorough": {"batches": 128, "runs": 20000, "budget_s": 900},
@@ -111,7 +111,10 @@ def gen_box(t, bounds, d):
 
 
 def frac(t):
-    return Fraction(t.rint(-40, 40, "fr.n"), t.pick([1, 2, 3, 4, 7, 8], "fr.d"))
+    f = Fraction(t.rint(-40, 40, "fr.n"), t.pick([1, 2, 3, 4, 7, 8], "fr.d"))
+    if t.coin(6, 100, "fr.big"):
+        f *= t.pick([10 ** 6, 2 ** 31, 2 ** 33 + 1, 10 ** 12, Fraction(1, 10 ** 9)], "fr.scale")  # far outside any page
+    return f
 
 
 def affine_laws(t, devs):
@@ -159,6 +162,7 @@ def run(tape, ctx, item=None):
     counter = 0
     had_remove = False
     nontrivial = False
+    order_convention = [None]
     if ox < 0 or oy < 0:
         ctx.probe("negative coordinates")
 
@@ -185,7 +189,7 @@ def run(tape, ctx, item=None):
             first.append(b)
 
     for step in range(nops):
-        op = t.weighted([30, 8, 18, 8, 5, 12, 6, 4, 4], "op")
+        op = t.weighted([30, 8, 18, 8, 5, 12, 6, 4, 4, 2], "op")
         try:
             if op == 0 or (op in (2, 3, 4) and not everseen):
                 b = new_box()
@@ -222,6 +226,18 @@ def run(tape, ctx, item=None):
                 plane.add(b)
                 ctx.probe("double add")
                 hist.append("add-again #%d" % b.n)
+            elif op == 9:  # churn: many short-lived objects (dead entries pile up in whatever the index keeps)
+                k = t.pick([20, 35, 50, 70], "churn.n")
+                bs = [new_box() for _ in range(k)]
+                for b in bs:
+                    plane.add(b)
+                    model_add(b)
+                for b in bs:
+                    plane.remove(b)
+                    seq.remove(b)
+                had_remove = True
+                ctx.probe("churn of 20-70 short-lived objects")
+                hist.append("churn: %d objects #%d..#%d added and removed" % (k, bs[0].n, bs[-1].n))
             elif op == 5:
                 hist.append("find")
             elif op == 6:
@@ -239,6 +255,13 @@ def run(tape, ctx, item=None):
         it = list(plane)
         if it != seq and it != firstpos:
             devs.append(Dev("C20:iteration-order", "list(plane)=%r, model (latest-insertion order)=%r; history=%s" % (it, seq, hist)))
+        elif seq != firstpos:
+            # a re-added object may keep its first place or take a new one - but the same way throughout a history
+            conv = "latest" if it == seq else "first"
+            if order_convention[0] is None:
+                order_convention[0] = conv
+            elif order_convention[0] != conv:
+                devs.append(Dev("C20:iteration-order-inconsistent", "list(plane)=%r follows %s-insertion order, earlier in this history it followed %s-insertion order; history=%s" % (it, conv, order_convention[0], hist)))
         if len(plane) != len(seq):
             devs.append(Dev("C20:len", "len=%d model=%d; history=%s" % (len(plane), len(seq), hist)))
         probe_obj = t.pick(everseen, "contains.which") if everseen else None
